@@ -18,7 +18,7 @@ func init() {
 			"liveness: not Registered, launch/registration timeout elapsed with the right condition's transition time and constant; " +
 			"node repair: unhealthy condition found, toleration elapsed, pool/cluster healthy by the ≤ 20% (rounded up) rule, errors of either health lookup stop the action.",
 		NotCovered: []string{"truthfulness/completeness of the provider's List", "clock skew between controller and API server", "values of provider repair policies"},
-		Rules: c16Rules,
+		Rules:      c16Rules,
 	})
 }
 
